@@ -9,6 +9,7 @@ From Coq Require Import Arith Lia List Bool ZArith QArith Qcanon Field Permutati
 From AV.lib Require Import Sums QcInst.
 From AV.gen Require Import C06_Gen.
 From AV.C11 Require Import Base Model Lemmas Units.
+Local Open Scope string_scope.
 From AV.gen Require Import C11_Gen.
 Import ListNotations.
 Local Open Scope nat_scope.
@@ -28,13 +29,17 @@ Local Notation fd := (fd E Meth grad).
 Local Notation orthonormal := (orthonormal E).
 
 (* A numerically differentiated Hessian is symmetric: for any atom count, any gradient oracle, either
-   difference scheme, serial or process-pool evaluation, any starting contents. *)
+   difference scheme, serial or process-pool evaluation, any starting contents.  (This is a consequence of
+   the symmetrising `hessian` property alone: it holds for ANY contents of the raw matrix.)  Reading the
+   property again returns the same matrix (the in-place symmetrisation is idempotent; needs 2 <> 0). *)
 Theorem numhess_symmetric :
   forall cdiff m x h n (s : st E),
     symmetric F (3 * n) (hess E (hessian_prop E (calculate_serial E Meth grad cdiff m x h n s))) /\
-    symmetric F (3 * n) (hess E (hessian_prop E (calculate_parallel E Meth grad cdiff m x h n s))).
+    symmetric F (3 * n) (hess E (hessian_prop E (calculate_parallel E Meth grad cdiff m x h n s))) /\
+    (TWO <> F0 -> forall r c, hess E (hessian_prop E (hessian_prop E s)) r c = hess E (hessian_prop E s) r c).
 Proof.
-  intros. split; apply (symmetrise_symmetric F F0 F1 Fadd Fmul Fsub Fopp Fdiv Finv Fth).
+  intros. split; [|split]; try apply (symmetrise_symmetric F F0 F1 Fadd Fmul Fsub Fopp Fdiv Finv Fth).
+  intros H2 r c. apply (symmetrise_idem F F0 F1 Fadd Fmul Fsub Fopp Fdiv Finv Fth). exact H2.
 Qed.
 
 (* After calculate() on a fresh calculator every row 3i+k holds the finite difference of the gradient
@@ -165,26 +170,41 @@ Proof.
   exact Hz.
 Qed.
 
-(* Projected normal modes (normal_modes_proj), given what qr and eigh return (D has orthonormal columns,
-   S_bar has orthonormal columns): the first n_tr modes are identically zero, every vibrational mode is
-   orthogonal to the n_tr translation/rotation columns of D (no net translation or rotation in
-   mass-weighted space) and the vibrational modes are orthonormal. *)
+(* Projected normal modes as RETURNED by normal_modes_proj (normalised), given what qr and eigh return
+   (D and S_bar have orthonormal columns; sqrt 1 = 1):
+   (1) the first n_tr modes are identically zero;
+   (2) NO NET TRANSLATION OR ROTATION: every returned mode is orthogonal to every vector w lying in the span of the
+       first n_tr columns of D - in particular to each normalised mass-weighted translation / rotation vector
+       M^1/2 t / |M^1/2 t| of _tr_vecs, PROVIDED qr put it into that span (the premise `in the span` is the defining
+       property of a QR factorisation of a matrix whose first columns are those vectors and have rank n_tr; it is an
+       oracle premise, checked numerically by the implementation oracles, and it is where a wrong n_tr would show);
+   (3) the returned vibrational modes are orthonormal. *)
 Theorem modes_orthonormal_no_net_tr :
   forall ntr nv (D Sbar : nat -> nat -> F),
-  orthonormal (ntr + nv) D -> orthonormal nv Sbar ->
+  orthonormal (ntr + nv) D -> orthonormal nv Sbar -> Fsqrt F1 = F1 ->
   let d := ntr + nv in
   (forall i r, i < ntr -> mode E d ntr D Sbar i r = F0) /\
-  (forall i a, a < ntr -> dot F F0 Fadd Fmul d (mode_raw E d ntr D Sbar i) (col E D a) = F0) /\
+  (forall (w : nat -> F) (c : nat -> F),
+     (forall r, r < d -> w r = sum F F0 Fadd ntr (fun a => Fmul (c a) (D r a))) ->
+     forall i, dot F F0 Fadd Fmul d (mode E d ntr D Sbar i) w = F0) /\
+  (forall n (m : nat -> F) (X ex ey ez t : nat -> F) (c : nat -> F), d = 3 * n ->
+     In t (tr_vecs E n m X ex ey ez) ->
+     (forall r, r < d -> normalised E d (mw_vec E m t) r = sum F F0 Fadd ntr (fun a => Fmul (c a) (D r a))) ->
+     forall i, dot F F0 Fadd Fmul d (mode E d ntr D Sbar i) (normalised E d (mw_vec E m t)) = F0) /\
   (forall i j, i < nv -> j < nv ->
-     dot F F0 Fadd Fmul d (mode_raw E d ntr D Sbar (ntr + i)) (mode_raw E d ntr D Sbar (ntr + j))
+     dot F F0 Fadd Fmul d (mode E d ntr D Sbar (ntr + i)) (mode E d ntr D Sbar (ntr + j))
      = if Nat.eqb i j then F1 else F0).
 Proof.
-  intros ntr nv D Sbar HD HS d. split; [|split].
+  intros ntr nv D Sbar HD HS Hs d. split; [|split; [|split]].
   - intros i r Hi. apply (mode_tr_zero F F0 F1 Fadd Fmul Fsub Fopp Fdiv Finv Fth). exact Hi.
-  - intros i a Ha. apply (mode_orth_tr F F0 F1 Fadd Fmul Fsub Fopp Fdiv Finv Fth); [exact HD|exact Ha|unfold d; lia].
+  - intros w c Hw i.
+    apply (mode_orth_span F F0 F1 Fadd Fmul Fsub Fopp Fdiv Finv Fth Fltb Feqb Fsqrt Fabs Fpi d ntr D Sbar i w c);
+      [exact HD|unfold d; lia|exact Hw].
+  - intros n m X ex ey ez t c _ _ Hw i.
+    apply (mode_orth_span F F0 F1 Fadd Fmul Fsub Fopp Fdiv Finv Fth Fltb Feqb Fsqrt Fabs Fpi d ntr D Sbar i _ c);
+      [exact HD|unfold d; lia|exact Hw].
   - intros i j Hi Hj. unfold d.
-    etransitivity; [apply (mode_gram F F0 F1 Fadd Fmul Fsub Fopp Fdiv Finv Fth); [exact HD|exact Hi|exact Hj]|].
-    apply HS; assumption.
+    apply (mode_gram_normalised F F0 F1 Fadd Fmul Fsub Fopp Fdiv Finv Fth Fltb Feqb Fsqrt Fabs Fpi); assumption.
 Qed.
 
 End Field.
@@ -245,15 +265,18 @@ Proof.
     + ring.
 Qed.
 
-(* Unit independence: storing the same Hessian in another of its implemented units hands the SAME
-   mass-weighted matrix to the eigen-solver (entry by entry), hence the same frequencies whatever the
-   solver returns; the unit strings of _mass_weighted name units of the Hessian and Mass classes. *)
+(* Unit independence, as far as it is algebra: (i) the unit strings written in _mass_weighted name units of the
+   Hessian and Mass classes of the GENERATED unit table; (ii) re-storing the same Hessian in another of its
+   implemented units (the generated conversion `conv`) hands the SAME mass-weighted matrix, entry by entry, to
+   the eigen-solver (every Hessian unit is a pure non-zero factor, so conversion through v equals the direct
+   one); (iii) is merely congruence: equal inputs give equal outputs of ANY solver.  Nothing is said about the
+   solver itself (oracle). *)
 Theorem unit_independent :
   (exists cls mcls j kg, In ("Hessian"%string, cls) classes /\ In ("Mass"%string, mcls) classes /\
-      AV.C06.Model.find_unit cls gen_mw_hessian_unit = Some j /\
-      AV.C06.Model.find_unit mcls gen_mw_mass_unit = Some kg) /\
+      find_unit cls gen_mw_hessian_unit = Some j /\
+      find_unit mcls gen_mw_mass_unit = Some kg) /\
   forall cls, In ("Hessian"%string, cls) classes ->
-  forall u v j, In u cls -> In v cls -> AV.C06.Model.find_unit cls gen_mw_hessian_unit = Some j ->
+  forall u v j, In u cls -> In v cls -> find_unit cls gen_mw_hessian_unit = Some j ->
   forall sq pi (conv_m : Qc -> Qc) (H : nat -> nat -> Qc) (m : nat -> Qc),
     (forall r c, mass_weighted (envQ sq pi) (fun x => conv x v j) conv_m (fun a b => conv (H a b) u v) m r c =
                  mass_weighted (envQ sq pi) (fun x => conv x u j) conv_m H m r c) /\
@@ -268,11 +291,14 @@ Proof.
   - intros eig scale d. apply (frequencies_unit_independent sq pi cls Hc u v j Hu Hv Hj).
 Qed.
 
-(* The projected spectrum has exactly n_tr leading zeros by construction, n_tr = 5 iff the atoms are
-   linear (exactly two atoms, or more with the collinearity test true) and 6 otherwise (as coded this
-   includes a single atom); the other entries are the converted eigenvalues of the projected block, and
-   with n_v = 3N - n_tr of them the list has 3N entries. *)
-Theorem projected_count :
+(* PARTIAL.  What is proved is the list structure of frequencies_proj: n_tr literal zeros, n_tr = 5 iff `are_linear`
+   (exactly two atoms, or more with the collinearity test of Atoms.are_linear answering True) else 6, followed by
+   the converted eigenvalues of the projected block; with n_v = 3N - n_tr of them the list has 3N entries (N >= 2).
+   NOT proved (oracle-level, see README "Partial"): that the OTHER entries are non-zero ("exactly"), and that the
+   boolean `collinear` - the answer of Atoms.are_linear, an input here - is the geometric fact; the implementation
+   oracle `Atoms.are_linear|near-linear-labelling-dependent` shows it is not label independent.  As coded a single
+   atom gets n_tr = 6 and a NEGATIVE n_v (last conjunct). *)
+Theorem projected_count_partial :
   forall sq pi scale n collinear lambdas,
   let fs := frequencies_proj sq pi scale n collinear lambdas in
   let ntr := n_tr n collinear in
@@ -281,7 +307,8 @@ Theorem projected_count :
   List.length fs = (ntr + List.length lambdas)%nat /\
   (forall i, (i < ntr)%nat -> nth i fs 1 = 0) /\
   (forall i, (i < List.length lambdas)%nat -> nth (ntr + i) fs 0 = freq sq pi scale (nth i lambdas 0)) /\
-  (Z.of_nat (List.length lambdas) = n_v n collinear -> List.length fs = (3 * n)%nat).
+  ((2 <= n)%nat -> Z.of_nat (List.length lambdas) = n_v n collinear -> List.length fs = (3 * n)%nat) /\
+  (n = 1%nat -> ntr = 6%nat /\ (n_v n collinear < 0)%Z).
 Proof.
   intros sq pi scale n collinear lambdas fs ntr.
   assert (Hcase : (ntr = 5%nat /\ (n = 2%nat \/ (2 < n)%nat /\ collinear = true)) \/
@@ -295,7 +322,7 @@ Proof.
     right. split; [reflexivity|]. intros [H|[_ H]]; [lia|discriminate]. }
   assert (Hlen : List.length fs = (ntr + List.length lambdas)%nat).
   { unfold fs, frequencies_proj, gen_frequencies_proj. rewrite app_length, repeat_length, map_length. reflexivity. }
-  split; [|split; [|split; [|split; [|split]]]].
+  split; [|split; [|split; [|split; [|split; [|split]]]]].
   - destruct Hcase as [[H1 H2]|[H1 H2]]; split; intros; try assumption; try lia; contradiction.
   - destruct Hcase as [[H1 H2]|[H1 H2]]; split; intros; try assumption; try lia; contradiction.
   - exact Hlen.
@@ -308,10 +335,65 @@ Proof.
     replace (ntr + i - ntr)%nat with i by lia.
     rewrite (nth_indep _ 0 (freq sq pi scale 0)) by (rewrite map_length; exact Hi).
     apply map_nth.
-  - intros Hnv. rewrite Hlen. unfold n_v, gen_n_v in Hnv. fold ntr in Hnv. lia.
+  - intros _ Hnv. rewrite Hlen. unfold n_v, gen_n_v in Hnv. fold ntr in Hnv. lia.
+  - intros ->. unfold ntr, n_v, n_tr, gen_n_v, gen_n_tr, are_linear. cbn. split; [reflexivity|lia].
+Qed.
+
+(* The scale factor used is Config.freq_scale_factor if set, else the functional's, else 1 (generated gen_scale). *)
+Theorem scale_precedence :
+  forall sq pi (c f : Qc),
+    gen_scale (envQ sq pi) (Some c) (Some f) = c /\ gen_scale (envQ sq pi) (Some c) None = c /\
+    gen_scale (envQ sq pi) None (Some f) = f /\ gen_scale (envQ sq pi) None None = 1.
+Proof.
+  intros. repeat split.
+Qed.
+
+(* The premise 0 <= scale of freq_sign_and_scale cannot be dropped: for a negative scale factor (Config rejects one,
+   a Functional's is not validated) an imaginary mode is NOT multiplied by the factor. *)
+Theorem freq_scale_premise_needed :
+  exists sq pi scale lambda, 0 < pi /\ scale < 0 /\ lambda < 0 /\
+    freq sq pi scale lambda <> scale * freq sq pi 1 lambda.
+Proof.
+  exists (fun x => x), (Q2Qc 3), (- Q2Qc 1), (- Q2Qc 1).
+  split; [vm_compute; reflexivity|]. split; [vm_compute; reflexivity|]. split; [vm_compute; reflexivity|].
+  intros H. vm_compute in H. discriminate H.
+Qed.
+
+(* frequencies_proj is evaluated ONCE per Hessian object when it is a cached_property (generated list
+   gen_cached_properties): a second access after Config.freq_scale_factor changed from s1 to s2 returns the FIRST
+   list if cached, the list for s2 otherwise.  With the current source it is cached, and then "the configured scale
+   factor multiplies every frequency" fails for an already-queried object (finding
+   Hessian.frequencies_proj|scale-factor-cached): second conjunct, with a witness. *)
+Theorem frequencies_after_scale_change :
+  (forall sq pi s1 s2 n collinear lambdas,
+     freqs_twice sq pi s1 s2 n collinear lambdas =
+       (frequencies_proj sq pi s1 n collinear lambdas,
+        if is_cached "frequencies_proj" then frequencies_proj sq pi s1 n collinear lambdas
+        else frequencies_proj sq pi s2 n collinear lambdas)) /\
+  (is_cached "frequencies_proj" = true ->
+     exists sq pi s1 s2 n collinear lambdas,
+       snd (freqs_twice sq pi s1 s2 n collinear lambdas) <> frequencies_proj sq pi s2 n collinear lambdas).
+Proof.
+  split.
+  - intros. unfold freqs_twice, access, frequencies_proj, freq, n_tr.
+    destruct (is_cached "frequencies_proj"); reflexivity.
+  - intros Hc. exists (fun x => x), (Q2Qc 3), 1, (Q2Qc (1 # 2)), 2%nat, true, [Q2Qc 4].
+    unfold freqs_twice, access. rewrite Hc. cbn [snd].
+    intros H. vm_compute in H. discriminate H.
 Qed.
 
 (* ---- non-vacuity: the hypotheses of the theorems above are satisfiable ---- *)
+Example orthonormal_nonvacuous :
+  let EQ := envQ (fun x => x) (Q2Qc 3) in
+  orthonormal EQ 3 (fun i j => if Nat.eqb i j then 1 else 0) /\ fsqrt EQ (f1 EQ) = f1 EQ /\
+  (forall r, (r < 3)%nat -> (fun r => if Nat.eqb r 1 then Q2Qc 5 else 0) r =
+     sum Qc 0 Qcplus 2 (fun a => (if Nat.eqb a 1 then Q2Qc 5 else 0) * (if Nat.eqb r a then 1 else 0))).
+Proof.
+  cbv zeta. split; [|split; [reflexivity|]].
+  - intros a b Ha Hb. destruct a as [|[|[|a]]]; destruct b as [|[|[|b]]]; try lia; vm_compute; reflexivity.
+  - intros r Hr. destruct r as [|[|[|r]]]; try lia; vm_compute; reflexivity.
+Qed.
+
 Example nonvacuous :
   (* a positive-preserving "sqrt", pi, scale and a negative eigenvalue: a strictly negative frequency *)
   (freq (fun x => x) (Q2Qc 3) (Q2Qc (1 # 2)) (- Q2Qc 4) < 0) /\
@@ -324,7 +406,7 @@ Example nonvacuous :
   (NoDup [1%nat; 0%nat] /\ forall l : list (nat * (nat -> Qc)), Permutation l (rev l)) /\
   (* a Hessian unit pair with the mass-weighting target unit *)
   (exists cls u v j, In ("Hessian"%string, cls) classes /\ In u cls /\ In v cls /\ u <> v /\
-      AV.C06.Model.find_unit cls gen_mw_hessian_unit = Some j).
+      find_unit cls gen_mw_hessian_unit = Some j).
 Proof.
   split; [vm_compute; reflexivity|]. split; [|split].
   - cbv zeta. split; [vm_compute; reflexivity|]. split; [|vm_compute; reflexivity].
